@@ -17,6 +17,7 @@ PROPS = {
     "C08": grid_prop(20000, 800000, hang_is_violation=True, floors=dict(FAMS, **{"type:curved": 0.05, "limits:binding": 0.2, "limits:persisted-call": 0.1, "limits:-1-mixed": 0.1, "limits:saturated-return": 0.03})),
     "C09": grid_prop(8000, 300000, floors=dict(FAMS, **{"batch:singles": 0.2, "interleaved-candidates": 0.1, "start:empty": 0.15, "target:stable-refined": 0.03})),
     "C11": grid_prop(25000, 800000, floors=dict(FAMS, **{"range-copy": 0.1, "src:pending": 0.015, "src:constructing": 0.05, "range:construction-continuation": 0.01})),
+    "C14": grid_prop(30000, 1000000, hang_is_violation=True, floors={"state:E": 0.03, "state:F": 0.05, "state:L": 0.1, "state:P": 0.03, "state:C": 0.05, "state:Z": 0.03, "post:empty": 0.03}),
     "C06": grid_prop(40000, 1500000,
                      floors={"fam:global": 0.08, "fam:sequence": 0.08, "fam:localp": 0.08, "fam:wavelet": 0.08, "fam:fourier": 0.08,
                              "fmt:ascii": 0.35, "sec:pending": 0.04, "sec:construction": 0.04, "sec:transform": 0.04, "sec:limits": 0.04}),
@@ -29,6 +30,11 @@ NOT_APPLICABLE = {}
 
 _TB = "Trusted base: the harness (decoder, reference models, oracles) and the sanitizer runtimes; generation is random, so absence of violations is evidence for the explored distribution only (reported in the evidence file)."
 META = {
+    "C14": dict(technique="property-based testing (rapidcheck, structure-aware byte decoder) over a misuse catalogue transcribed from the documented throws-clauses: exception-type oracle, bitwise digest-before == digest-after (or empty), continuation against a pristine copy; ASan/UBSan, watchdog",
+                text="Grid states from generated histories (empty, fresh, loaded, pending refinement, active construction, zero outputs; all families) receive one generated violation of a documented throws-clause (make*/update/refine/estimate/candidates/load*/set*/get* "
+                     "with wrong sizes, ranges, grid types or call order; unreadable files and valid files of the state itself with a damaged documented header or trailer field, ascii and binary, stream and file). The call must throw std::invalid_argument or "
+                     "std::runtime_error, the object must afterwards be empty (failed make/read only) or bitwise unchanged, and must then behave exactly like a pristine copy under a generated continuation. Exploration.",
+                note=_TB + " Only clauses announced by the documentation are exercised; arbitrary corruption of file bodies is outside the property."),
     "C11": dict(technique="property-based testing (rapidcheck, structure-aware byte decoder): observational digest equality / restriction after every copy route, bitwise independence under generated mutation scripts, ASan for shared state",
                 text="Source grids from generated histories are copied through the copy constructor, assignment onto a used grid, copyGrid and copyGrid with an output sub-range (including -1 and a beyond-range end); the copy's digest must equal the (restricted) digest of the source, "
                      "a generated mutation script on either side must leave the other side bitwise unchanged, and range copies taken during construction must stay the restriction of the source after a common continuation. Exploration.",
